@@ -417,8 +417,14 @@ async fn interp(case: &Case, gates: Gates, v: &mut Verdict) {
                 match tokio::time::timeout(Duration::from_secs(20), &mut task).await {
                     Ok(r) => res = Some(r),
                     Err(_) => {
-                        v.inconclusive = Some("pool.get() did not finish within 20 s".into());
-                        return;
+                        // every gate is open and fewer than max_size connections are out: the pool
+                        // no longer serves with its full capacity
+                        fail!(
+                            "get-hung-with-free-capacity",
+                            "pool.get() did not finish within 20 s although only {} of {} connections are checked out and no closure is blocked",
+                            held.len(),
+                            max
+                        );
                     }
                 }
             }
